@@ -344,7 +344,7 @@ structure World where
   res : List Nat := []                    -- the array returned by the last objects(filter) (result register)
   isa : Nat := 0                          -- illegal_sentence_action (1: remove_action ran, 2: remove_sent removed something)
   ret0 : List Nat := []                   -- objects whose LPC variable `act_ret` is 0
-  ldepth : Nat := 0                       -- num_objects_this_thread: load_object() calls in progress
+  ldepth : Int := 0                       -- num_objects_this_thread: load_object() calls in progress
   out : List String := []                 -- canonical trace, newest first
 
 def emit (w : World) (s : String) : World := { w with out := s :: w.out }
@@ -660,7 +660,8 @@ def exec (sc : Scripts) : Nat → Task → World → R
           -- load_object (name): `if (++num_objects_this_thread > __INHERIT_CHAIN_SIZE__) error`
           let saveCg := w.cg
           let w := { w with ldepth := w.ldepth + 1 }
-          if w.ldepth > inheritChainSize then raise w (errChain b)
+          -- (a C `int`: clone_object clears it in the middle of nested loads, the loads then count it below zero)
+          if w.ldepth > (inheritChainSize : Int) then raise w (errChain b)
           else
             -- the program: either a final result (no file, compile error, the inherit detour) or "compiled in state w"
             let ph : R ⊕ World :=
